@@ -50,6 +50,11 @@ type Emb interface {
 type Dep interface {
 	D(t @{~/a/foo}.T, rest ...*@{~/b/foo}.T) (@{~/a/foo}.T, *@{~/b/foo}.T)
 }
+
+// parameters spelled like identifiers the generated body needs
+type Weird interface {
+	W(panic func(v any), nil int, append string) (error string, mock int)
+}
 `
 
 type dynBuild struct {
@@ -57,7 +62,7 @@ type dynBuild struct {
 	Dir          string
 }
 
-var dynIfaces = []string{"Two", "Void", "Gen", "Named", "Wide", "Emb", "Dep"}
+var dynIfaces = []string{"Two", "Void", "Gen", "Named", "Wide", "Emb", "Dep", "Weird"}
 
 func dynPkg(dir string) *SrcPkg {
 	sp := &SrcPkg{Dir: dir, Name: "dyn", Files: []SrcFile{{Name: "dyn.go", Decls: dynFamily}}}
@@ -70,7 +75,7 @@ func dynPkg(dir string) *SrcPkg {
 // e3Spec is one entry of the generated registry.
 type e3Spec struct {
 	Label, Alias, PkgPath, Expr, MockType, Iface, Family string
-	Stub, Resets                                          bool
+	Stub, Resets                                         bool
 }
 
 type e3Report struct {
@@ -291,7 +296,7 @@ func runE3(prop, tier string) int {
 		if v.Prop == "HARNESS" {
 			fatalf("e3 driver: %s: %s", v.Mock, v.Detail)
 		}
-		if v.Prop != prop {
+		if !strings.Contains(v.Prop, prop) {
 			continue
 		}
 		rep.Violate(&Violation{Diag: "history: " + v.Oracle, Case: v.Mock + ": " + strings.Join(v.History, " ; "), Detail: v.Detail,
@@ -299,7 +304,7 @@ func runE3(prop, tier string) int {
 	}
 	other := 0
 	for _, v := range er.Violations {
-		if v.Prop != prop {
+		if !strings.Contains(v.Prop, prop) {
 			other++
 		}
 	}
